@@ -6,11 +6,10 @@ import (
 	"fmt"
 	"os"
 	"path/filepath"
+	"runtime"
 	"runtime/pprof"
 	"sort"
-	"strconv"
 	"strings"
-	"syscall"
 	"time"
 
 	"github.com/apache/skywalking-banyandb/banyand/internal/storage"
@@ -249,31 +248,29 @@ func setup(sc scenario, seq *int) sched.Harness {
 					_ = w.db.Close()
 				}()
 			}
-			_ = os.RemoveAll(dir)
 			if aborted {
-				closeLeakedFDs(dir)
+				for _, s := range w.segs {
+					s.ForceClose()
+				}
+				collectAfterAbort()
 			}
+			_ = os.RemoveAll(dir)
 		},
 	}
 }
 
-// closeLeakedFDs closes descriptors that still point into an execution's (already removed) scratch directory. Only
-// executions that were aborted by a panic / deadlock inside the code under test leave such descriptors behind (the
-// unwound threads never reach their own cleanup); without this a long exploration of a scenario with a known panic
-// exhausts the descriptor limit.
-func closeLeakedFDs(dir string) {
-	ents, err := os.ReadDir("/proc/self/fd")
-	if err != nil {
-		return
-	}
-	for _, e := range ents {
-		fd, convErr := strconv.Atoi(e.Name())
-		if convErr != nil || fd < 3 {
-			continue
-		}
-		if target, linkErr := os.Readlink("/proc/self/fd/" + e.Name()); linkErr == nil && strings.HasPrefix(target, dir) {
-			_ = syscall.Close(fd)
-		}
+// Executions that are aborted by a panic / deadlock inside the code under test never reach their own cleanup and leave
+// open files behind that only the garbage collector's finalizers close. A long exploration of a scenario with a known
+// panic would exhaust the descriptor limit before the collector runs (the workers allocate little), so it is run
+// explicitly now and then. (Closing the descriptors by number is NOT safe: the finalizers would later close the
+// re-used numbers under a live index.)
+var abortedSinceGC int
+
+func collectAfterAbort() {
+	abortedSinceGC++
+	if abortedSinceGC >= 100 {
+		abortedSinceGC = 0
+		runtime.GC()
 	}
 }
 
